@@ -18,16 +18,18 @@ var (
 	VerifPrimaryProposal = primaryProposal
 )
 
-func VerifDecodeMessage(cm *network.ConsensusMessage) (GrandpaMessage, error) { return decodeMessage(cm) }
+func VerifDecodeMessage(cm *network.ConsensusMessage) (GrandpaMessage, error) {
+	return decodeMessage(cm)
+}
 
 func (s *Service) VerifHandleMessage(from peer.ID, m GrandpaMessage) error {
 	_, err := s.messageHandler.handleMessage(from, m)
 	return err
 }
 
-func (s *Service) VerifInitiateRound() error          { return s.initiateRound() }
-func (s *Service) VerifHandleIsPrimary() (bool, error) { return s.handleIsPrimary() }
-func (s *Service) VerifDeterminePreVote() (*Vote, error) { return s.determinePreVote() }
+func (s *Service) VerifInitiateRound() error               { return s.initiateRound() }
+func (s *Service) VerifHandleIsPrimary() (bool, error)     { return s.handleIsPrimary() }
+func (s *Service) VerifDeterminePreVote() (*Vote, error)   { return s.determinePreVote() }
 func (s *Service) VerifDeterminePreCommit() (*Vote, error) { return s.determinePreCommit() }
 func (s *Service) VerifCreateSignedVoteAndVoteMessage(v *Vote, stage Subround) (*SignedVote, *VoteMessage, error) {
 	return s.createSignedVoteAndVoteMessage(v, stage)
@@ -41,9 +43,9 @@ func (s *Service) VerifStoreOwnVote(stage Subround, sv *SignedVote) {
 }
 func (s *Service) VerifSendPrevoteMessage(vm *VoteMessage) error   { return s.sendPrevoteMessage(vm) }
 func (s *Service) VerifSendPrecommitMessage(vm *VoteMessage) error { return s.sendPrecommitMessage(vm) }
-func (s *Service) VerifCheckRoundCompletable() (bool, error)        { return s.checkRoundCompletable() }
-func (s *Service) VerifAttemptToFinalize() (bool, error)            { return s.attemptToFinalize() }
-func (s *Service) VerifGetPreVotedBlock() (Vote, error)             { return s.getPreVotedBlock() }
+func (s *Service) VerifCheckRoundCompletable() (bool, error)       { return s.checkRoundCompletable() }
+func (s *Service) VerifAttemptToFinalize() (bool, error)           { return s.attemptToFinalize() }
+func (s *Service) VerifGetPreVotedBlock() (Vote, error)            { return s.getPreVotedBlock() }
 func (s *Service) VerifTotalVotesForBlock(h common.Hash, stage Subround) (uint64, error) {
 	return s.getTotalVotesForBlock(h, stage)
 }
@@ -94,7 +96,7 @@ func (s *Service) VerifHandleNetworkBytes(from peer.ID, raw []byte) (bool, error
 }
 
 // real round driver mode: the pieces of Service.Start, startable one by one
-func (s *Service) VerifTrackerStart()  { s.tracker.start() }
+func (s *Service) VerifTrackerStart()   { s.tracker.start() }
 func (s *Service) VerifInitiate() error { return s.initiate() }
 
 // VerifHandoff, when set, is called by the finalisation engine right after it handed an action to
@@ -119,4 +121,13 @@ func (s *Service) VerifSignedVotes(stage Subround) map[ed25519.PublicKeyBytes]Si
 		return true
 	})
 	return out
+}
+
+// VerifRoundLockFree reports whether nobody holds the round lock right now.
+func (s *Service) VerifRoundLockFree() bool {
+	if s.roundLock.TryLock() {
+		s.roundLock.Unlock()
+		return true
+	}
+	return false
 }
